@@ -7,6 +7,7 @@
   result value, every errno / error kind, every directory content, every requested size.
 -/
 import Fbr.Lemmas.SrvReply
+import Fbr.Gen.Server
 
 namespace Fbr.Thm.C03
 open Fbr.Srv Fbr.Wire Fbr.Conv
@@ -23,6 +24,31 @@ theorem error_is_negated_errno (n : Nat) (h1 : 1 ≤ n) (h2 : n ≤ 4095) :
 theorem error_kind_is_negated_errno (k : String) :
     errField (.kind k) = 2 ^ 32 - encodeKind k ∧ 1 ≤ encodeKind k ∧ encodeKind k ≤ 4095 :=
   ⟨rfl, encodeKind_range k⟩
+
+/-- Linux errno values used by `encode_io_error_kind` -/
+def errnoValue (n : String) : Option Nat :=
+  [("EPERM", 1), ("ENOENT", 2), ("EINTR", 4), ("EIO", 5), ("EWOULDBLOCK", 11),
+   ("EAGAIN", 11), ("EACCES", 13), ("EEXIST", 17), ("EINVAL", 22)].lookup n
+
+/-- value of an arm body `libc::A | libc::B | …` -/
+def armValue (body : List String) : Option Nat :=
+  body.foldl (fun acc t => match acc, errnoValue t with
+    | some a, some b => some (a ||| b)
+    | _, _ => none) (some 0)
+
+/-- **The model's error-kind table is today's `encode_io_error_kind`**: every arm of the match
+    in src/lib.rs (regenerated table) maps its kind to the errno the model uses; the default arm
+    is the model's default (EIO). -/
+theorem encode_kind_table_matches :
+    ∀ a ∈ Gen.encodeKindArms,
+      armValue a.2 = some (encodeKind (if a.1 = "_" then "any other kind" else a.1)) := by
+  decide +kernel
+
+/-- … and the arms are exactly the five kinds the model distinguishes, plus the default. -/
+theorem encode_kind_arms_complete :
+    Gen.encodeKindArms.map (·.1) =
+      ["PermissionDenied", "NotFound", "Interrupted", "AlreadyExists", "WouldBlock", "_"] := by
+  decide +kernel
 
 /-- An error result produces exactly the 16-byte header carrying that error and the request's
     unique (when the reply buffer can hold a header at all). -/
